@@ -405,4 +405,394 @@ Lemma cstep_open_ro_res : forall p torn s,
   snd (cstep (OOpen p false false) torn s) = match sfiles s p with Some _ => ROk | None => RErr end.
 Proof. intros. cbn [cstep step]. destruct (sfiles s p); reflexivity. Qed.
 
+(* creating / opening the output file for writing *)
+Lemma cstep_open_dat : forall d torn s, U d -> Jc s ->
+  let s' := fst (cstep (OOpen (DatP (H d)) true false) torn s) in
+  Gc s s' /\ snd (cstep (OOpen (DatP (H d)) true false) torn s) = ROk /\ at_least d 0 s'.
+Proof.
+  intros d torn s Ud Js. cbn [cstep step op_path].
+  destruct (sfiles s (DatP (H d))) as [c|] eqn:Ec; cbn [fst snd].
+  - split; [|split; [reflexivity|]].
+    + split; [apply grows_same_files; reflexivity|intros _; apply (Jc_reset_last s _ Js)].
+    + destruct Js as (Hi1 & _). destruct (Hi1 _ _ Ec) as (d0 & Ud0 & Hh & Hp).
+      assert (d0 = d) by (apply H_inj; assumption). subst d0.
+      exists c. cbn [sfiles]. split; [exact Ec|]. split; [exact Hp|lia].
+  - split; [|split; [reflexivity|]].
+    + split.
+      * intros p c Hc. exists c. cbn [sfiles]. rewrite upd_other by (intros ->; congruence).
+        split; [exact Hc|]. destruct p; [auto|apply prefix_refl].
+      * intros _. apply (Jc_upd_dat s d [] None Js Ud (prefix_nil d)); [intros c Hc; congruence|intros o Ho; discriminate].
+    + exists []. cbn [sfiles]. rewrite upd_same. split; [reflexivity|]. split; [apply prefix_nil|cbn; lia].
+Qed.
+
+Lemma cstep_open_idx : forall id torn s, Jc s ->
+  let s' := fst (cstep (OOpen (IdxP id) true false) torn s) in
+  Gc s s' /\ snd (cstep (OOpen (IdxP id) true false) torn s) = ROk /\ idx_exists id s'.
+Proof.
+  intros id torn s Js. cbn [cstep step op_path].
+  destruct (sfiles s (IdxP id)) as [c|] eqn:Ec; cbn [fst snd].
+  - split; [|split; [reflexivity|exists c; exact Ec]].
+    split; [apply grows_same_files; reflexivity|intros _; apply (Jc_reset_last s _ Js)].
+  - split; [|split; [reflexivity|exists []; cbn [sfiles]; apply upd_same]].
+    split.
+    + intros p c Hc. exists c. cbn [sfiles]. rewrite upd_other by (intros ->; congruence).
+      split; [exact Hc|]. destruct p; [auto|apply prefix_refl].
+    + intros _. apply (Jc_upd_idx s id [] None Js); [left; reflexivity|intros o Ho; discriminate].
+Qed.
+
+(* writing the next piece of the output *)
+Lemma cstep_write_dat : forall d off x torn s, U d -> Jc s -> at_least d off s ->
+  is_prefix (firstn off d ++ x) d ->
+  let s' := fst (cstep (OWrite (DatP (H d)) off x) torn s) in
+  Gc s s' /\ snd (cstep (OWrite (DatP (H d)) off x) torn s) = RWrote (length x) /\ at_least d (off + length x) s'.
+Proof.
+  intros d off x torn s Ud Js (c & Ec & Hp & Hl) Hx. cbn [cstep]. rewrite Ec. cbn [fst snd].
+  destruct (pwrite_chunk c d off x Hp Hl Hx) as (P1 & P2 & P3).
+  split; [|split; [reflexivity|]].
+  - split.
+    + intros p c0 Hc0. cbn [sfiles]. destruct (path_eq_dec p (DatP (H d))) as [->|N].
+      * rewrite upd_same. rewrite Ec in Hc0. inversion Hc0; subst. eexists. split; [reflexivity|exact P2].
+      * rewrite upd_other by exact N. exists c0. split; [exact Hc0|]. destruct p; [auto|apply prefix_refl].
+    + intros _. apply (Jc_upd_dat s d _ (Some c) Js Ud P1).
+      * intros c0 Hc0. rewrite Ec in Hc0. inversion Hc0; subst. exact P2.
+      * intros o Ho. inversion Ho; subst. exact P2.
+  - eexists. cbn [sfiles]. rewrite upd_same. split; [reflexivity|]. split; [exact P1|exact P3].
+Qed.
+
+(* writing the index entry, once the output is complete *)
+Lemma cstep_write_idx : forall id d tm torn s, PS id d tm -> Jc s ->
+  sfiles s (DatP (H d)) = Some d -> idx_exists id s ->
+  let s' := fst (cstep (OWrite (IdxP id) 0 (entry id d tm)) torn s) in
+  Gc s s' /\ snd (cstep (OWrite (IdxP id) 0 (entry id d tm)) torn s) = RWrote (length (entry id d tm)) /\
+  idx_nonempty id s' /\ sfiles s' (DatP (H d)) = Some d.
+Proof.
+  intros id d tm torn s Hps Js Hd (c & Ec). cbn [cstep]. rewrite Ec. cbn [fst snd].
+  assert (good_idx (sfiles s) id c) as Hgc by (destruct Js as (_ & _ & Hj3 & _); apply Hj3; exact Ec).
+  assert (pwrite c 0 (entry id d tm) = entry id d tm) as Ew.
+  { apply pwrite_all. rewrite (entry_length _ _ _ Hps).
+    destruct Hgc as [->|(d1 & t1 & Hp1 & -> & _)]; [cbn; lia|rewrite (entry_length _ _ _ Hp1); lia]. }
+  rewrite Ew.
+  split; [|split; [reflexivity|split]].
+  - split.
+    + intros p c0 Hc0. cbn [sfiles]. destruct (path_eq_dec p (IdxP id)) as [->|N].
+      * rewrite upd_same. eexists. split; [reflexivity|]. intros _. apply entry_nonempty.
+      * rewrite upd_other by exact N. exists c0. split; [exact Hc0|]. destruct p; [auto|apply prefix_refl].
+    + intros _. apply (Jc_upd_idx s id _ (Some c) Js).
+      * right. exists d, tm. auto.
+      * intros o Ho. inversion Ho; subst. exact Hgc.
+  - eexists. cbn [sfiles]. rewrite upd_same. split; [reflexivity|apply entry_nonempty].
+  - cbn [sfiles]. rewrite upd_other by discriminate. exact Hd.
+Qed.
+
+(* the truncation after the write: a no-op on a non-empty (hence entry-sized) index file *)
+Lemma cstep_trunc_idx : forall id torn s, Jc s -> idx_nonempty id s ->
+  let s' := fst (cstep (OTruncate (IdxP id) entry_size_n) torn s) in
+  Gc s s' /\ snd (cstep (OTruncate (IdxP id) entry_size_n) torn s) = ROk.
+Proof.
+  intros id torn s Js (c & Ec & Hn). cbn [cstep step op_path]. rewrite Ec. cbn [fst snd].
+  assert (good_idx (sfiles s) id c) as Hgc by (destruct Js as (_ & _ & Hj3 & _); apply Hj3; exact Ec).
+  destruct Hgc as [->|(d1 & t1 & Hp1 & E1 & Hf1)]; [contradiction|].
+  assert (ftruncate c entry_size_n = c) as Et.
+  { unfold ftruncate. rewrite pad_to_le by (rewrite E1, (entry_length _ _ _ Hp1); lia).
+    apply firstn_all2. rewrite E1, (entry_length _ _ _ Hp1). lia. }
+  rewrite Et. split; [|reflexivity]. split.
+  - intros p c0 Hc0. cbn [sfiles]. destruct (path_eq_dec p (IdxP id)) as [->|N].
+    + rewrite upd_same. rewrite Ec in Hc0. inversion Hc0; subst. eexists. split; [reflexivity|auto].
+    + rewrite upd_other by exact N. exists c0. split; [exact Hc0|]. destruct p; [auto|apply prefix_refl].
+  - intros _. apply (Jc_upd_idx s id c None Js).
+    + right. exists d1, t1. auto.
+    + intros o Ho. discriminate.
+Qed.
+
+(* ---- validity of programs *)
+Notation validc := (valid Jc Gc).
+Notation stablec := (stable Jc Gc).
+
+Definition observing (o : op) : Prop :=
+  match o with OStat _ | ORead _ _ _ | OReadAll _ | OClose _ | OChtimes _ | OOpen _ false false => True | _ => False end.
+
+Lemma cstep_observing : forall o torn s, observing o -> Gc s (fst (cstep o torn s)).
+Proof.
+  intros o torn s Ho. destruct o as [p|p [|] [|]|p off n|p|p off b|p n|p|p|p]; cbn in Ho; try contradiction;
+    try (apply cstep_observe; exact I). apply cstep_open_ro.
+Qed.
+
+(* an observing operation whose result is not used for anything the proof needs *)
+Lemma valid_observe : forall A (P : sys -> Prop) (Q : A -> sys -> Prop) o k,
+  observing o -> stablec P -> (forall r, validc P Q (k r)) -> validc P Q (Op o k).
+Proof.
+  intros A P Q o k Ho Hs Hk. apply (v_op _ _ _ _ _ _ (fun _ => P)); [exact Hs| |exact Hk].
+  intros s torn Js Ps. pose proof (cstep_observing o torn s Ho) as Hg. split; [exact Hg|].
+  eapply Hs; eassumption.
+Qed.
+
+Inductive readonly {A} : prog A -> Prop :=
+| ro_ret : forall a, readonly (Ret a)
+| ro_op : forall o k, observing o -> (forall r, readonly (k r)) -> readonly (Op o k).
+
+Lemma valid_readonly : forall A (p : prog A), readonly p -> validc (fun _ => True) (fun _ _ => True) p.
+Proof.
+  intros A p Hr. induction Hr as [a|o k Ho _ IH].
+  - apply v_ret; [apply true_stable|auto].
+  - apply valid_observe; [exact Ho|apply true_stable|exact IH].
+Qed.
+
+Lemma readonly_bind : forall A B (p : prog A) (f : A -> prog B), readonly p -> (forall a, readonly (f a)) -> readonly (bind p f).
+Proof. intros A B p f Hp Hf. induction Hp as [a|o k Ho _ IH]; cbn; [apply Hf|apply ro_op; assumption]. Qed.
+
+Lemma readonly_read_full : forall A fuel p off need acc (k : bytes -> prog A),
+  (forall b, readonly (k b)) -> readonly (read_full fuel p off need acc k).
+Proof.
+  intros A fuel. induction fuel as [|f IH]; intros p off need acc k Hk; cbn; [apply Hk|].
+  destruct (Nat.eqb need 0); [apply Hk|]. apply ro_op; [exact I|].
+  intros r. destruct r; try apply Hk. destruct (Nat.eqb (length b) 0); [apply Hk|apply IH; exact Hk].
+Qed.
+
+Lemma readonly_used : forall A p (k : prog A), readonly k -> readonly (used_prog p k).
+Proof.
+  intros A p k Hk. unfold used_prog. apply ro_op; [exact I|]. intros r.
+  destruct r; try exact Hk; apply ro_op; try exact I; intros _; exact Hk.
+Qed.
+
+Lemma readonly_get : forall id, readonly (get_prog id).
+Proof.
+  intros id. unfold get_prog. apply ro_op; [exact I|]. intros r. destruct r; try apply ro_ret.
+  apply readonly_read_full. intros e. destruct (parse_entry e id).
+  - apply readonly_used. apply ro_op; [exact I|]. intros _. apply ro_ret.
+  - apply ro_op; [exact I|]. intros _. apply ro_ret.
+Qed.
+
+Lemma readonly_get_file : forall id, readonly (get_file_prog id).
+Proof.
+  intros id. unfold get_file_prog. apply readonly_bind; [apply readonly_get|].
+  intros [[[out size] tm]|]; [|apply ro_ret]. apply readonly_bind.
+  - unfold output_file_prog. apply readonly_used. apply ro_ret.
+  - intros file. apply ro_op; [exact I|]. intros r. destruct r; try apply ro_ret. destruct (Z.eqb _ _); apply ro_ret.
+Qed.
+
+Lemma readonly_get_bytes : forall id, readonly (get_bytes_prog H id).
+Proof.
+  intros id. unfold get_bytes_prog. apply readonly_bind; [apply readonly_get|].
+  intros [[[out size] tm]|]; [|apply ro_ret]. apply readonly_bind.
+  - unfold output_file_prog. apply readonly_used. apply ro_ret.
+  - intros file. apply ro_op; [exact I|]. intros r. destruct (bytes_eqb _ _); apply ro_ret.
+Qed.
+
+Lemma valid_absurd : forall A (P : sys -> Prop) (Q : A -> sys -> Prop) p,
+  stablec P -> (forall s, P s -> False) -> validc P Q p.
+Proof.
+  intros A P Q p Hs Hf. eapply valid_weaken; [apply (valid_false Jc Gc)|exact Hs|]. intros s _ Ps. exact (Hf s Ps).
+Qed.
+
+Ltac stab :=
+  repeat first [ apply and_stable | apply pure_stable | apply true_stable
+               | apply idx_exists_stable | apply idx_nonempty_stable
+               | (apply complete_stable; assumption) | (apply at_least_stable; assumption) ].
+
+Lemma valid_index : forall id d tm, PS id d tm ->
+  validc (fun s => sfiles s (DatP (H d)) = Some d) (fun ok s => ok = true /\ idx_nonempty id s)
+         (put_index_prog id (H d) (length d) tm).
+Proof.
+  intros id d tm Hps. destruct (PS_ok _ _ _ Hps) as (Ud & _).
+  unfold put_index_prog. rewrite open_index. fold (entry id d tm).
+  set (e := entry id d tm). set (pi := IdxP id).
+  apply (v_op _ _ _ _ _ _ (fun r s => r = ROk /\ sfiles s (DatP (H d)) = Some d /\ idx_exists id s)); [stab| |].
+  { intros s torn Js Pc. destruct (cstep_open_idx id torn s Js) as (Hg & Hr & He).
+    split; [exact Hg|]. split; [exact Hr|]. split; [exact (complete_stable d Ud _ _ Js Pc Hg)|exact He]. }
+  intros r. destruct r; try (apply valid_absurd; [stab|intros s (E & _); discriminate]).
+  apply (v_op _ _ _ _ _ _ (fun w s => w = RWrote (length e) /\ idx_nonempty id s)); [stab| |].
+  { intros s torn Js (_ & Pc & Pe). destruct (cstep_write_idx id d tm torn s Hps Js Pc Pe) as (Hg & Hr & Hn & _).
+    split; [exact Hg|]. split; [exact Hr|exact Hn]. }
+  intros w. destruct w; try (apply valid_absurd; [stab|intros s (E & _); discriminate]).
+  destruct (Nat.eqb n (length e)) eqn:En; cbn [wrote_all]; rewrite En;
+    [|apply valid_absurd; [stab|intros s (E & _); inversion E; subst; rewrite Nat.eqb_refl in En; discriminate]].
+  assert (length e = entry_size_n) as Le by (apply entry_length; exact Hps). rewrite Le.
+  apply (v_op _ _ _ _ _ _ (fun t s => t = ROk /\ idx_nonempty id s)); [stab| |].
+  { intros s torn Js (_ & Pn). destruct (cstep_trunc_idx id torn s Js Pn) as (Hg & Hr).
+    split; [exact Hg|]. split; [exact Hr|]. exact (idx_nonempty_stable id _ _ Js Pn Hg). }
+  intros t. destruct t; try (apply valid_absurd; [stab|intros s (E & _); discriminate]).
+  cbn [is_err].
+  apply (v_op _ _ _ _ _ _ (fun c s => c = ROk /\ idx_nonempty id s)); [stab| |].
+  { intros s torn Js (_ & Pn). pose proof (cstep_observing (OClose pi) torn s I) as Hg.
+    split; [exact Hg|]. split; [reflexivity|]. exact (idx_nonempty_stable id _ _ Js Pn Hg). }
+  intros c. destruct c; try (apply valid_absurd; [stab|intros s (E & _); discriminate]).
+  cbn [orb is_err].
+  apply valid_observe; [exact I|stab|]. intros _.
+  apply v_ret; [stab|]. intros s _ (_ & Pn). split; [reflexivity|exact Pn].
+Qed.
+
+Lemma at_least_full : forall d s, Jc s -> at_least d (length d) s -> sfiles s (DatP (H d)) = Some d.
+Proof.
+  intros d s _ (c & Ec & Hp & Hl). rewrite Ec. f_equal. apply prefix_full; [exact Hp|].
+  apply prefix_length in Hp. lia.
+Qed.
+
+Lemma valid_write_chunks : forall A (Q : A -> sys -> Prop) d cs w (K : bool -> prog A),
+  U d -> is_prefix (w ++ concat cs) d ->
+  validc (at_least d (length (w ++ concat cs))) Q (K true) ->
+  validc (at_least d (length w)) Q (write_chunks (DatP (H d)) cs (length w) K).
+Proof.
+  intros A Q d cs. induction cs as [|x r IH]; intros w K Ud Hpre Hk.
+  - cbn [write_chunks]. cbn [concat] in Hk. rewrite app_nil_r in Hk. exact Hk.
+  - cbn [write_chunks]. cbn [concat] in Hpre, Hk.
+    assert (is_prefix w d) as Hw by (eapply prefix_trans; [|exact Hpre]; eexists; reflexivity).
+    assert (firstn (length w) d = w) as Ew by (symmetry; apply prefix_firstn; exact Hw).
+    apply (v_op _ _ _ _ _ _ (fun r s => r = RWrote (length x) /\ at_least d (length w + length x) s)); [stab| |].
+    { intros s torn Js Pa.
+      assert (is_prefix (firstn (length w) d ++ x) d) as Hx.
+      { rewrite Ew. eapply prefix_trans; [|exact Hpre]. rewrite app_assoc. eexists; reflexivity. }
+      destruct (cstep_write_dat d (length w) x torn s Ud Js Pa Hx) as (Hg & Hr & Ha). auto. }
+    intros r0. destruct r0; try (apply valid_absurd; [stab|intros s (E & _); discriminate]).
+    cbn [wrote_all]. destruct (Nat.eqb n (length x)) eqn:En;
+      [|apply valid_absurd; [stab|intros s (E & _); inversion E; subst; rewrite Nat.eqb_refl in En; discriminate]].
+    replace (length w + length x)%nat with (length (w ++ x)) by apply app_length.
+    eapply valid_weaken; [apply (IH (w ++ x) K Ud)|stab|intros s _ (_ & Pa); exact Pa].
+    + rewrite <- app_assoc. exact Hpre.
+    + rewrite <- app_assoc. exact Hk.
+Qed.
+
+Definition copied (d : bytes) (ok : bool) (s : sys) : Prop := ok = true /\ sfiles s (DatP (H d)) = Some d.
+
+Lemma valid_copy_rewrite : forall chunks,
+  let d := concat chunks in U d ->
+  validc (fun _ => True) (copied d) (copy_rewrite H (honest_reader chunks) (H d) (length d) false).
+Proof.
+  intros chunks d Ud. unfold copy_rewrite. rewrite open_copy_small.
+  set (pd := DatP (H d)).
+  apply (v_op _ _ _ _ _ _ (fun r s => r = ROk /\ at_least d 0 s)); [stab| |].
+  { intros s torn Js _. destruct (cstep_open_dat d torn s Ud Js) as (Hg & Hr & Ha). auto. }
+  intros r. destruct r; try (apply valid_absurd; [stab|intros s (E & _); discriminate]).
+  destruct (Nat.eqb (length d) 0) eqn:E0.
+  - apply Nat.eqb_eq in E0. apply valid_observe; [exact I|stab|]. intros _.
+    apply v_ret; [stab|]. intros s Js (_ & Pa). split; [reflexivity|].
+    apply at_least_full; [exact Js|]. rewrite E0. exact Pa.
+  - apply Nat.eqb_neq in E0. cbn [honest_reader rd_seek2 rd_pass2 negb]. fold d.
+    destruct (firstn_pred_last d) as (b & Eb & Ed); [lia|].
+    eapply valid_weaken; [|stab|intros s _ (_ & Pa); exact Pa].
+    apply (valid_write_chunks _ _ d _ [] _ Ud).
+    + cbn [app]. rewrite cut_chunks_concat. apply firstn_prefix.
+    + cbn [app negb]. rewrite cut_chunks_concat. fold d.
+      replace (Nat.ltb (length d) (length d - 1)) with false by (symmetry; apply Nat.ltb_ge; lia).
+      rewrite Eb, Ed, bytes_eqb_refl. cbn [negb].
+      assert (length (firstn (length d - 1) d) = length d - 1)%nat as Lw by (rewrite firstn_length; lia).
+      apply (v_op _ _ _ _ _ _ (fun r s => r = RWrote 1 /\ sfiles s pd = Some d)); [stab| |].
+      { intros s torn Js Pa. rewrite Lw in Pa.
+        assert (is_prefix (firstn (length d - 1) d ++ [b]) d) as Hx by (rewrite Ed; apply prefix_refl).
+        destruct (cstep_write_dat d (length d - 1) [b] torn s Ud Js Pa Hx) as (Hg & Hr & Ha).
+        split; [exact Hg|]. split; [exact Hr|]. apply at_least_full; [eapply Gc_J; eassumption|].
+        cbn [length] in Ha. replace (length d - 1 + 1)%nat with (length d) in Ha by lia. exact Ha. }
+      intros r0. destruct r0; try (apply valid_absurd; [stab|intros s (E & _); discriminate]).
+      cbn [wrote_all length]. destruct (Nat.eqb n 1) eqn:En;
+        [|apply valid_absurd; [stab|intros s (E & _); inversion E; subst; discriminate]].
+      apply (v_op _ _ _ _ _ _ (fun c s => c = ROk /\ sfiles s pd = Some d)); [stab| |].
+      { intros s torn Js (_ & Pc). pose proof (cstep_observing (OClose pd) torn s I) as Hg.
+        split; [exact Hg|]. split; [reflexivity|]. exact (complete_stable d Ud _ _ Js Pc Hg). }
+      intros c. destruct c; try (apply valid_absurd; [stab|intros s (E & _); discriminate]).
+      cbn [is_err].
+      apply valid_observe; [exact I|stab|]. intros _.
+      apply valid_observe; [exact I|stab|]. intros _.
+      apply v_ret; [stab|]. intros s _ (_ & Pc). split; [reflexivity|exact Pc].
+Qed.
+
+Lemma impl_stable : forall (X : Prop) (P : sys -> Prop), stablec P -> stablec (fun s => X -> P s).
+Proof. intros X P HP s s' Js Hx Hg x. eapply HP; [exact Js|apply Hx; exact x|exact Hg]. Qed.
+
+(* what an observer may see of an output file: a prefix of what is there *)
+Lemma view_dat : forall s d torn v, Jc s -> U d -> view s (DatP (H d)) torn = Some v ->
+  exists c, sfiles s (DatP (H d)) = Some c /\ is_prefix v c /\ is_prefix c d.
+Proof.
+  intros s d torn v (Hi1 & Hj2 & _) Ud Hv. unfold view in Hv.
+  destruct (sfiles s (DatP (H d))) as [c|] eqn:Ec; [|discriminate].
+  destruct (Hi1 _ _ Ec) as (d0 & Ud0 & Hh & Hp). assert (d0 = d) by (apply H_inj; assumption). subst d0.
+  exists c. split; [reflexivity|]. split; [|exact Hp].
+  destruct torn as [j|]; [|inversion Hv; apply prefix_refl].
+  destruct (slast s (DatP (H d))) as [o|] eqn:Eo; [|inversion Hv; apply prefix_refl].
+  inversion Hv; subst. destruct (Hj2 _ _ Eo) as (c' & Ec' & Ho). rewrite Ec in Ec'. inversion Ec'; subst.
+  apply (mix_prefix j c' o Ho).
+Qed.
+
+Lemma valid_copy_file : forall chunks,
+  let d := concat chunks in U d ->
+  validc (fun _ => True) (copied d) (copy_file_prog H (honest_reader chunks) (H d) (length d)).
+Proof.
+  intros chunks d Ud. unfold copy_file_prog. set (pd := DatP (H d)).
+  pose proof (valid_copy_rewrite chunks Ud) as Hrw. fold d in Hrw.
+  assert (forall P, stablec P -> validc P (copied d) (copy_rewrite H (honest_reader chunks) (H d) (length d) false)) as Hrw'.
+  { intros P HP. eapply valid_weaken; [exact Hrw|exact HP|intros; exact I]. }
+  apply (v_op _ _ _ _ _ _ (fun r s => match r with
+                                       | RSize n => (n <= length d)%nat /\ (n = length d -> sfiles s pd = Some d)
+                                       | _ => True end)); [stab| |].
+  { intros s torn Js _. split; [apply (cstep_observing (OStat pd) torn s I)|].
+    cbn [cstep fst snd]. destruct (view s pd torn) as [v|] eqn:Ev; [|exact I].
+    destruct (view_dat s d torn v Js Ud Ev) as (c & Ec & Hv & Hc).
+    pose proof (prefix_length _ _ Hv). pose proof (prefix_length _ _ Hc). split; [lia|].
+    intros E. unfold pd. rewrite Ec. f_equal. apply prefix_full; [exact Hc|lia]. }
+  intros r. destruct r; try (apply Hrw'; stab).
+  destruct (Nat.eqb n (length d)) eqn:En.
+  - apply Nat.eqb_eq in En. subst n.
+    assert (stablec (fun s => (length d <= length d)%nat /\ (length d = length d -> sfiles s pd = Some d))) as Hst
+      by (apply and_stable; [apply pure_stable|apply impl_stable; apply complete_stable; exact Ud]).
+    apply (v_op _ _ _ _ _ _ (fun _ s => sfiles s pd = Some d)); [exact Hst| |].
+    { intros s torn Js (_ & Pc). pose proof (cstep_open_ro pd torn s) as Hg. split; [exact Hg|].
+      exact (complete_stable d Ud _ _ Js (Pc eq_refl) Hg). }
+    intros r2. destruct r2; try (apply Hrw'; stab).
+    apply valid_observe; [exact I|stab|]. intros r3.
+    apply valid_observe; [exact I|stab|]. intros _.
+    destruct (bytes_eqb _ _); [|apply Hrw'; stab].
+    destruct copy_reuse_refreshes.
+    + unfold used_prog. apply valid_observe; [exact I|stab|]. intros r4.
+      destruct r4; try (apply valid_observe; [exact I|stab|]; intros _);
+        (apply v_ret; [stab|]; intros s _ Pc; split; [reflexivity|exact Pc]).
+    + apply v_ret; [stab|]. intros s _ Pc. split; [reflexivity|exact Pc].
+  - apply Nat.eqb_neq in En. destruct (Nat.ltb (length d) n) eqn:El.
+    + apply Nat.ltb_lt in El. apply valid_absurd; [|intros s (Hle & _); lia].
+      apply and_stable; [apply pure_stable|apply impl_stable; apply complete_stable; exact Ud].
+    + apply Hrw'. apply and_stable; [apply pure_stable|apply impl_stable; apply complete_stable; exact Ud].
+Qed.
+
+(* ---- the calls *)
+Definition call_ok (c : call) : Prop :=
+  match c with CPut id chunks tm => PS id (concat chunks) tm | CPutR _ _ _ => False | _ => True end.
+
+(* a completed Put has succeeded, and from then on the index file of its id is never empty *)
+Definition post (c : call) (r : cres) (s : sys) : Prop :=
+  match c, r with
+  | CPut id chunks tm, XPut pr => pr = PutOk (H (concat chunks)) (length (concat chunks)) /\ idx_nonempty id s
+  | CPut _ _ _, _ => False
+  | _, _ => True
+  end.
+
+Lemma post_stable : forall c r, stablec (post c r).
+Proof.
+  intros c r. destruct c, r; cbn [post]; stab.
+Qed.
+
+Lemma valid_bind_ret : forall A B (P : sys -> Prop) (Q : B -> sys -> Prop) (g : A -> B) (p : prog A),
+  validc P (fun a s => Q (g a) s) p -> (forall b, stablec (Q b)) ->
+  validc P Q (bind p (fun a => Ret (g a))).
+Proof.
+  intros A B P Q g p Hv Hst. eapply valid_bind; [exact Hv|].
+  intros a. apply v_ret; [apply Hst|auto].
+Qed.
+
+Lemma call_valid : forall c, call_ok c -> validc (fun _ => True) (post c) (call_prog H c).
+Proof.
+  intros c Hok. destruct c as [id chunks tm|id rd tm|id|id|id]; cbn [call_prog]; [|destruct Hok| | |].
+  - cbn [call_ok] in Hok. destruct (PS_ok _ _ _ Hok) as (Ud & _).
+    apply valid_bind_ret; [|intros b; apply (post_stable (CPut id chunks tm) b)].
+    unfold put_prog. cbn [honest_reader rd_seek1 rd_ok1 rd_pass1 negb orb].
+    eapply valid_bind; [apply (valid_copy_file chunks Ud)|].
+    intros ok. destruct ok.
+    + eapply valid_weaken; [|unfold copied; stab|intros s _ (_ & Pc); exact Pc].
+      eapply valid_bind; [apply (valid_index id (concat chunks) tm Hok)|].
+      intros ok2. apply v_ret; [stab|]. intros s _ (-> & Pn). cbn [post]. auto.
+    + apply valid_absurd; [unfold copied; stab|intros s (E & _); discriminate].
+  - apply valid_bind_ret; [|intros b; apply (post_stable (CGet id) b)].
+    eapply valid_weaken; [apply valid_readonly; apply readonly_get|stab|intros; exact I].
+  - apply valid_bind_ret; [|intros b; apply (post_stable (CGetBytes id) b)].
+    eapply valid_weaken; [apply valid_readonly; apply readonly_get_bytes|stab|intros; exact I].
+  - apply valid_bind_ret; [|intros b; apply (post_stable (CGetFile id) b)].
+    eapply valid_weaken; [apply valid_readonly; apply readonly_get_file|stab|intros; exact I].
+Qed.
+
 End CacheRG.
